@@ -22,7 +22,7 @@ GARBAGE = {"quick": 30000, "thorough": 600000}
 # Trace_Cost handles a few thousand events per second; every family event, every event that is not
 # ok/err and this many of the others go through it per TLC run (the remainder is validated in further
 # TLC runs of the same size in the thorough tier, see _validate_all)
-TRACE_SLICE = 40000
+TRACE_SLICE = 60000
 
 
 def _cfg(path, dense, open_names, require):
@@ -103,7 +103,7 @@ def run(prop, tier):
         t1 = time.time()
         # 3. garbage
         garbage = os.path.join(wd, "garbage.ndjson")
-        n_garbage = GARBAGE[tier]
+        n_garbage = int(os.environ.get("VERIF_C03_GARBAGE", GARBAGE[tier]))   # development aid
         C.run_harness(["doc-cost-garbage", "--seed", str(C.seed()), "--count", str(n_garbage),
                        "--out", garbage])
         gar_ev = os.path.join(wd, "garbage.ev")
@@ -113,15 +113,18 @@ def run(prop, tier):
         mc_ev = None
         import docs
         mc_cases = getattr(docs, "mc_cases", None)
-        if mc_cases is not None:
+        if mc_cases is not None and not os.environ.get("VERIF_C03_NOMC"):
+            t1 = time.time()
             try:
                 path = mc_cases(wd, tier)
-            except C.ToolError as e:
+            except Exception as e:      # that engine is under construction; its inputs are a bonus here
                 C.log("C03: docs.mc_cases not usable (%s); skipped" % e)
                 path = None
             if path and os.path.exists(path):
                 mc_ev = os.path.join(wd, "mc.ev")
                 _run_inputs(path, mc_ev, 256, family_default="mc")
+                C.log("C03: %d inputs of MC_Doc generated and run in %.1fs"
+                      % (C.count_lines(mc_ev), time.time() - t1))
         # 5. trace validation.  First slice: every family event, every event whose outcome is not
         #    ok/err, and as many of the other events as fit; further slices: the rest.
         fam_lines = open(fam_ev).read().splitlines()
